@@ -39,6 +39,11 @@ OPS = {}
 for name, md in (("mti", MTI), ("enum", ENUM), ("coll", COLL), ("newcoll", NEWCOLL), ("cppfn", CPPFN), ("job", JOB), ("inject", INJECT), ("docker", DOCKER)):
     OPS["ok_" + name] = (q([md], GOOD_BODY), True)
     OPS["fail_" + name] = (q([md], BAD_BODY), False)
+# a declaration for a class the backend itself pre-declares methods for (its table of defaults must stay what it was)
+MTI_DEFAULT_CLASS = {"metadata_type": "add_method_type_info", "type_string": "xAOD::TruthParticle", "method_name": "charge", "return_type": "int"}
+MTI_DEFAULT_METHOD = {"metadata_type": "add_method_type_info", "type_string": "xAOD::TruthParticle", "method_name": "parent", "return_type": "int"}
+OPS["ok_mti_default_class"] = (q([MTI_DEFAULT_CLASS, MTI_DEFAULT_METHOD], "lambda e: e.TruthParticles('t').Select(lambda p: p.charge() + p.parent())"), True)
+OPS["fail_mti_default_class"] = (q([MTI_DEFAULT_CLASS, MTI_DEFAULT_METHOD], "lambda e: e.TruthParticles('t').Select(lambda p: p.charge() // 2)"), False)
 OPS["ok_plain"] = (q([], GOOD_BODY), True)
 OPS["fail_plain"] = (q([], BAD_BODY), False)
 OPS["fail_badmd"] = (q([MTI, {"metadata_type": "no_such"}], GOOD_BODY), False)
@@ -77,6 +82,9 @@ PROBES = {
     # were created or used before, the ATLAS translation knows nothing about reco::Track::hitPattern (must raise)
     "foreign_default_class": q([dict(COLL, name="Trks", container_type="my::TrkContainer", element_type="reco::Track")],
                                "lambda e: e.Trks('x').Select(lambda t: t.hitPattern().n())"),
+    # methods of a class with backend defaults: an undeclared one is a double, a default one keeps its default type
+    "default_class_methods": q([], "lambda e: e.TruthParticles('t').Select(lambda p: p.charge())"),
+    "default_class_default_method": q([], "lambda e: e.TruthParticles('t').Where(lambda p: p.parent().pt() > 1.5).Count()"),
     "own_job_script": q([{"metadata_type": "add_job_script", "name": "mine", "script": ["my_option = 2"], "depends_on": []}], "lambda e: e.Jets('A').Count()"),
     "own_declarations": q([dict(MTI, return_type="float"), dict(INJECT, body_includes=["mine.h"], private_members=[], link_libraries=[])],
                           "lambda e: e.Jets('A').Select(lambda j: j.pt())"),
